@@ -326,6 +326,15 @@ impl<'a> Gen<'a> {
         let sender = if ps.is_empty() || self.r.chance(1, 10) { pick_user(self.r).to_string() } else { self.run.h.w.n(ps[self.r.below(ps.len() as u64) as usize].receiver.as_str()) };
         let cur = self.cur_epoch();
         let until = match self.r.below(5) { 0 => cur.saturating_sub(self.r.below(4)).to_string(), 1 => (cur + 1).to_string(), 2 => cur.to_string(), _ => "-".to_string() };
+        // C07: the Rewards query an instant before the claim
+        let uq = if until == "-" { None } else { until.parse::<u64>().ok() };
+        let q: Result<mantra_dex_std::farm_manager::RewardsResponse, _> = self.run.h.w.app.wrap().query_wasm_smart(
+            self.run.h.w.a("fm"), &mantra_dex_std::farm_manager::QueryMsg::Rewards { address: self.run.h.w.astr(&sender), until_epoch: uq });
+        self.run.ms.rewards_quote = match q {
+            Ok(mantra_dex_std::farm_manager::RewardsResponse::RewardsResponse { total_rewards, .. }) =>
+                Some(total_rewards.iter().map(|c| (self.run.h.w.cd(&c.denom), c.amount.u128())).collect()),
+            _ => None,
+        };
         self.emit(format!("tx {} 0 fm claim {}", sender, until));
     }
 
